@@ -524,6 +524,7 @@ func TestC29(t *testing.T) {
 	agg.AddHist(res)
 	exploreE2(t, run, agg)
 	slow := slowPeer(t, run)
+	replaced := replacedStream(t, run)
 	agg.Finish(false)
 	agg.RequireTag("handler ran")
 	if run.NViolations() == 0 && (statInv.Load() == 0 || statUnsub.Load() == 0 || statRaceEvent.Load() == 0) {
@@ -532,6 +533,7 @@ func TestC29(t *testing.T) {
 	run.Cov["exhaustive"] = run.Cov["exhaustive"].(bool) && openerExhaustive
 	run.Cov["opener_rule"] = opener
 	run.Cov["slow_peer"] = slow
+	run.Cov["replaced_stream"] = replaced
 	run.Cov["evaluations"] = opener["evaluations"]
 	run.Cov["distinct_nontrivial"] = opener["distinct_nontrivial"]
 	run.Cov["rule"] = opener["rule"]
